@@ -5,11 +5,11 @@ from kernel_main import main, run  # noqa
 def kind_a(report, tier, seed):
     from contracts import idexpr
 
-    idexpr.run(report, {"kernel_type"})
+    report.guarded("kernel type contracts", idexpr.run, report, {"kernel_type"})
     from contracts import lowering_shell
 
-    lowering_shell.terminal_expression(report, 3 if tier == "quick" else 4)
-    lowering_shell.generate_module(report)
+    report.guarded("terminal expression", lowering_shell.terminal_expression, report, 3 if tier == "quick" else 4)
+    report.guarded("generate_module_tensora shell", lowering_shell.generate_module, report)
 
 
 def check(argv):
